@@ -100,6 +100,22 @@ def diffRes (impl model : RunRes) : Option (String × Nat) :=
 
 def modelBudget : Nat := 200000
 
+/-- per-property projections of a trace: a disagreement between model and implementation is
+    attributed to the properties whose projection differs -/
+def projections : List (String × (SimEvent → Bool)) :=
+  [ ("C15", fun e => e.event == .tunnelSent || e.event == .tunnelRecv),
+    ("C16", fun e => e.event == .tunnelSent || e.event == .blockingEnd || (match e.event with | .blockingBegin _ => true | _ => false)),
+    ("C17", fun e => match e.event with | .paddingSent _ => true | .blockingBegin _ => true | _ => false),
+    ("C18", fun e => match e.event with | .timerBegin _ => true | .timerEnd _ => true | _ => false),
+    ("C19", fun _ => true) ]
+
+def diffProj (noMachines : Bool) (impl model : RunRes) : List String :=
+  match impl, model with
+  | .ok a, .ok b =>
+    (projections.filterMap fun (pid, f) => if a.filter f != b.filter f then some pid else none)
+      ++ (if noMachines && a != b then ["C14"] else [])
+  | _, _ => if impl != model then (if noMachines then ["C14"] else []) ++ ["C15", "C16", "C17", "C18", "C19"] else []
+
 /-- coverage features of one run (model internals + the implementation's trace) -/
 def runSig (r : ObsRun) (o : SimOut OState) : List String :=
   let f (b : Bool) (s : String) : List String := if b then [s] else []
@@ -154,6 +170,8 @@ def run (cases : List CaseBlock) (args : List String) : IO Unit := do
     | .error e => IO.println s!"case {c.id} {c.kind} PARSE {e}"
     | .ok p =>
       let mut diffs : List String := []
+      let mut projs : List String := []
+      let noMachines := p.input.mc.isEmpty && p.input.ms.isEmpty
       let mut sigs : List String := [s!"c{p.input.mc.length}s{p.input.ms.length}"]
       let mut nev := 0
       let mut models : List (ObsRun × SimOut OState × Int) := []
@@ -161,13 +179,16 @@ def run (cases : List CaseBlock) (args : List String) : IO Unit := do
         let (o, t0) := Mb.Sim.modelRun replayOracle modelBudget p.input r.run orc
         let mres := o.res t0
         match diffRes r.res mres with
-        | some (what, i) => diffs := diffs ++ [s!"{r.run.name}:{what} first={i}"]
+        | some (what, i) =>
+          diffs := diffs ++ [s!"{r.run.name}:{what} first={i}"]
+          projs := projs ++ diffProj noMachines r.res mres
         | none =>
           -- the oracle must be consumed exactly (only meaningful when the run completed)
           match o.final with
           | some st =>
             if st.orc.starved || !st.orc.us.isEmpty || !st.orc.ds.isEmpty then
               diffs := diffs ++ [s!"{r.run.name}:oracle first=0"]
+              projs := projs ++ ["C15", "C16", "C17", "C18", "C19"]
           | none => pure ()
         sigs := sigs ++ runSig r o
         if args.contains "dump" then
@@ -179,7 +200,7 @@ def run (cases : List CaseBlock) (args : List String) : IO Unit := do
       if diffs.isEmpty then
         IO.println s!"case {c.id} {c.kind} ok runs={p.runs.length} events={nev}"
       else
-        IO.println s!"case {c.id} {c.kind} DIFF {String.intercalate " ; " diffs}"
+        IO.println s!"case {c.id} {c.kind} DIFF proj={String.intercalate "," (dedup projs)} {String.intercalate " ; " diffs}"
       IO.println s!"sig {c.id} {String.intercalate "," (dedup sigs)}"
       for (pid, msg) in simMonitors p.input (p.runs.map (·.1)) (p.runs.map (·.2)) do
         IO.println s!"mon {pid} FAIL {c.id} {msg}"
